@@ -63,6 +63,62 @@ partial def hshP (cs : List Char) : Option (Lit × List Char) := do
   | _, _ => none
 end
 
+/-- a type in a tag: Integer | Integer[lo,hi] | Float | String | Boolean | Any | Optional[T] | Array[T] | Hash[K,V] -/
+partial def ttyP : List Char → Option (TTy × List Char)
+  | cs =>
+    let name := cs.takeWhile Char.isAlpha
+    let r := cs.dropWhile Char.isAlpha
+    let intP (cs : List Char) : Option (Int × List Char) :=
+      let (neg, r) := match cs with
+        | '-' :: r => (true, r)
+        | _ => (false, cs)
+      let ds := r.takeWhile Char.isDigit
+      if ds.isEmpty then none else some ((if neg then -(digitsVal ds : Int) else digitsVal ds), r.dropWhile Char.isDigit)
+    match String.ofList name, r with
+    | "Integer", '[' :: r1 => do
+        let (lo, r2) ← intP r1
+        match r2 with
+        | ',' :: r3 => do
+            let (hi, r4) ← intP r3
+            match r4 with
+            | ']' :: r5 => pure (.int lo hi, r5)
+            | _ => none
+        | _ => none
+    | "Integer", r => some (.int minI64 maxI64, r)
+    | "Float", r => some (.float, r)
+    | "String", r => some (.str, r)
+    | "Boolean", r => some (.bool, r)
+    | "Any", r => some (.any, r)
+    | "Optional", '[' :: r1 => do
+        let (t, r2) ← ttyP r1
+        match r2 with
+        | ']' :: r3 => pure (.opt t, r3)
+        | _ => none
+    | "Array", '[' :: r1 => do
+        let (t, r2) ← ttyP r1
+        match r2 with
+        | ']' :: r3 => pure (.array t, r3)
+        | _ => none
+    | "Hash", '[' :: r1 => do
+        let (k, r2) ← ttyP r1
+        match r2 with
+        | ',' :: r3 => do
+            let (v, r4) ← ttyP r3
+            match r4 with
+            | ']' :: r5 => pure (.hash k v, r5)
+            | _ => none
+        | _ => none
+    | _, _ => none
+
+def ttyOf (s : String) : Option TTy :=
+  match ttyP s.toList with
+  | some (t, []) => some t
+  | _ => none
+
+def kindOf (s : String) : Option Kind :=
+  if s == "constant" then some .constant else if s == "derived" then some .derived
+  else if s == "given_or_derived" then some .givenOrDerived else if s == "reference" then some .reference else none
+
 def litOf (s : String) : Option Lit :=
   match litP s.toList with
   | some (l, []) => some l
@@ -80,6 +136,10 @@ def tagItems (t : String) : Option FTag :=
       | _ => none
     else if item.startsWith "value=>" then
       (litOf (item.drop 7).toString).map fun d => { acc with dflt := some d }
+    else if item.startsWith "type=>" then
+      (ttyOf (item.drop 6).toString).map fun t => { acc with typ := some t }
+    else if item.startsWith "kind=>" then
+      (kindOf (item.drop 6).toString).map fun k => { acc with kind := k }
     else none) {}
 
 def goNameOK (n : String) : Bool :=
@@ -148,22 +208,6 @@ partial def valOf : GoTy → Sexp → Option GoVal
 
 def paren (xs : List String) : String := "(" ++ " ".intercalate xs ++ ")"
 
-/-- the order in which the harness registers the struct types of a type term (registerStructs: key, element, fields, then
-    the struct itself; a type already seen keeps its number) -/
-partial def regOrder (acc : List GoTy) : GoTy → List GoTy
-  | .slice e => regOrder acc e
-  | .ptr e => regOrder acc e
-  | .array _ e => regOrder acc e
-  | .map k v => regOrder (regOrder acc k) v
-  | .snil => if acc.contains .snil then acc else acc ++ [.snil]
-  | .scons n tg ft rest =>
-      let rec fields (acc : List GoTy) : GoTy → List GoTy
-        | .scons _ _ ft rest => fields (regOrder acc ft) rest
-        | _ => acc
-      let acc' := fields acc (.scons n tg ft rest)
-      if acc'.contains (.scons n tg ft rest) then acc' else acc' ++ [.scons n tg ft rest]
-  | _ => acc
-
 def objName (names : List GoTy) (S : GoTy) : String :=
   match names.idxOf? S with
   | some i => s!"T::S{i + 1}"
@@ -217,7 +261,8 @@ def singleHash : List Val → Bool
 
 /-- inside the model: modelled shape, well-typed value, every struct type derivable -/
 def inModel (ty : GoTy) (gv : GoVal) : Bool :=
-  Modelled ty && hasType ty gv && (structsIn ty).all structWF
+  Modelled ty && hasType ty gv && (structsIn ty).all shapeOK &&
+  ((firstErr ty).isSome || (structsIn ty).all structWF)
 
 def exec : List Sexp → String
   | [.atom "obj", t, v] =>
@@ -228,7 +273,8 @@ def exec : List Sexp → String
       | none => "bad-op"
       | some gv =>
         if !(isStruct S && S != .snil && inModel S gv) then "bad-op" else
-        let names := regOrder [] S
+        if let some e := firstErr S then s!"register=reported {e}" else
+        let names := regOrder S
         let fvs := objFVs S gv
         let ih := initHash fvs
         let full := fullHash fvs
@@ -237,7 +283,7 @@ def exec : List Sexp → String
         let pos := attrs.map fieldVal
         let trim := trimDefaults afs pos
         let ambiguous (h : List (Val × Val)) := match attrs with
-          | fv :: _ => inst (typeOf fv.1.ty) (.hsh h)
+          | fv :: _ => inst fv.1.aty (.hsh h)
           | [] => false
         valStr names (.hsh ih)
           ++ (if singleHash pos then "" else variantStr "pos" gv (newPosS r32 S pos))
@@ -252,7 +298,8 @@ def exec : List Sexp → String
       | none => "bad-op"
       | some gv =>
         if !inModel ty gv then "bad-op" else
-        let names := regOrder [] ty
+        if let some e := firstErr ty then s!"register=reported {e}" else
+        let names := regOrder ty
         let w := wrap true ty gv
         let pt := typeOf ty
         let back := match reflectTo r32 ty w with
